@@ -16,6 +16,7 @@ use serde_json::{json, Value};
 use tower_service::Service;
 
 mod conc;
+mod passfs;
 
 use sim::cli::{drive, parse_args, Engine};
 use sim::kit::{Stats, Violation};
@@ -74,11 +75,23 @@ pub struct Transport {
   pub break_after: Option<u32>,
 }
 
+/// One storage primitive under the index directory fails (or panics) while this
+/// request is being served.
+#[derive(Clone, Debug, Serialize, Deserialize, PartialEq)]
+pub struct FsFault {
+  /// index of the primitive, counted from the start of the request
+  pub at: u32,
+  /// "eio" or "panic"
+  pub kind: String,
+}
+
 #[derive(Clone, Debug, Serialize, Deserialize, PartialEq)]
 pub struct Req {
   pub kind: ReqKind,
   #[serde(default)]
   pub t: Transport,
+  #[serde(default)]
+  pub fs_fault: Option<FsFault>,
 }
 
 /// A block of requests that are in flight at the same time, after the
@@ -245,6 +258,7 @@ fn gen_case(rng: &mut Rng, c24: bool, thorough: bool) -> HttpCase {
           content_length: true,
           ..Default::default()
         },
+        fs_fault: None,
       });
     }
   }
@@ -252,11 +266,13 @@ fn gen_case(rng: &mut Rng, c24: bool, thorough: bool) -> HttpCase {
     reqs.push(Req {
       kind: ReqKind::Init { bad: true },
       t: gen_transport(rng, false),
+      fs_fault: None,
     });
   }
   reqs.push(Req {
     kind: ReqKind::Init { bad: false },
     t: gen_transport(rng, false),
+    fs_fault: None,
   });
   // a third of the cases end in a block of concurrent requests (short
   // sequential part, so that most of the run is the block)
@@ -328,15 +344,28 @@ fn gen_case(rng: &mut Rng, c24: bool, thorough: bool) -> HttpCase {
       }
     };
     let t = gen_transport(rng, c24);
-    reqs.push(Req { kind, t });
+    reqs.push(Req { kind, t, fs_fault: None });
   }
   // C23: always end with a commit so that the queue model is observed
+  // swarm: in one case of five the disk misbehaves: a storage primitive fails
+  // (or, for C24, panics) while some of the requests are being served
+  if !with_conc && rng.chance(1, 5) {
+    for r in reqs.iter_mut() {
+      if !matches!(r.kind, ReqKind::Init { .. } | ReqKind::Healthz | ReqKind::Raw { .. }) && r.t.stall_after.is_none() && rng.chance(1, 3) {
+        r.fs_fault = Some(FsFault {
+          at: { let hi = if rng.chance(1, 2) { 8 } else { 60 }; rng.below(hi) as u32 },
+          kind: if c24 && rng.chance(1, 3) { "panic".into() } else { "eio".into() },
+        });
+      }
+    }
+  }
   reqs.push(Req {
     kind: ReqKind::Commit,
     t: Transport {
       content_length: true,
       ..Default::default()
     },
+    fs_fault: None,
   });
   let conc = if with_conc {
     let k = 2 + rng.usize(5);
@@ -371,7 +400,7 @@ fn gen_case(rng: &mut Rng, c24: bool, thorough: bool) -> HttpCase {
       };
       let faulty = c24 && rng.chance(1, 2);
       let t = gen_transport(rng, faulty);
-      creqs.push(Req { kind, t });
+      creqs.push(Req { kind, t, fs_fault: None });
     }
     let mut cancel: Vec<Option<u64>> = vec![None; k];
     if rng.chance(1, 4) {
@@ -707,7 +736,19 @@ struct RunOut {
   choices: Vec<u32>,
 }
 
-async fn run_async(case: &HttpCase, dir: &Path, stats: &mut Stats) -> RunOut {
+type Alt = (Vec<QOp>, Contents);
+
+fn alt_key(a: &Alt) -> String {
+  format!("{:?}#{:?}", a.0.iter().map(|o| o.short()).collect::<Vec<_>>(), contents_short(&a.1))
+}
+
+fn dedup_alts(alts: &mut Vec<Alt>) {
+  let mut seen = std::collections::BTreeSet::new();
+  alts.retain(|a| seen.insert(alt_key(a)));
+  alts.truncate(64);
+}
+
+async fn run_async(case: &HttpCase, dir: &Path, pfs: &passfs::PassFs, stats: &mut Stats) -> RunOut {
   let mut out = RunOut {
     violations: Vec::new(),
     trace: Vec::new(),
@@ -732,8 +773,9 @@ async fn run_async(case: &HttpCase, dir: &Path, stats: &mut Stats) -> RunOut {
     }
   };
   let mut initialised = false;
-  let mut queue: Vec<QOp> = Vec::new();
-  let mut committed = Contents::new();
+  // the queue model; after a storage fault there may be several states the
+  // service is allowed to be in (a failed request may have taken effect or not)
+  let mut alts: Vec<Alt> = vec![(Vec::new(), Contents::new())];
   let mut grams: Vec<String> = Vec::new();
   for (step, req) in case.reqs.iter().enumerate() {
     let built = build(&req.kind);
@@ -757,7 +799,18 @@ async fn run_async(case: &HttpCase, dir: &Path, stats: &mut Stats) -> RunOut {
       stats.inc(if t.content_length { "fault.oversize_declared" } else { "fault.oversize_streamed" });
     }
     let request = make_request(&built, t);
-    let resp = match send(&router, request).await {
+    if let Some(f) = &req.fs_fault {
+      pfs.arm(f.at as u64, if f.kind == "panic" { passfs::Kind::Panic } else { passfs::Kind::Eio });
+    }
+    let sent = send(&router, request).await;
+    let fired = if req.fs_fault.is_some() { pfs.disarm().0 } else { None };
+    let faulted = fired.is_some();
+    if let Some((k, prim)) = &fired {
+      stats.inc(&format!("fault.storage_{}", req.fs_fault.as_ref().map(|f| f.kind.as_str()).unwrap_or("eio")));
+      stats.sites.insert(format!("{}:{}@{}", name, req.fs_fault.as_ref().map(|f| f.kind.as_str()).unwrap_or("eio"), prim));
+      out.trace.push(format!("{} storage fault at primitive {} ({})", step, k, prim));
+    }
+    let resp = match sent {
       Ok(r) => r,
       Err(e) => {
         out.violations.push(Violation::new(&["C24"], "no-response", name, step, format!("{} {}: {}", built.method, built.path, e)));
@@ -796,7 +849,7 @@ async fn run_async(case: &HttpCase, dir: &Path, stats: &mut Stats) -> RunOut {
         format!("{} -> {} with body `{}` (expected {{\"error\":{{\"type\",\"reason\"}}}})", what, st, body_txt),
       ));
     }
-    if st.is_server_error() && !stalled {
+    if st.is_server_error() && !stalled && !faulted {
       out
         .violations
         .push(Violation::new(&["C24"], "server-error", name, step, format!("{} -> {} `{}`", what, st, body_txt)));
@@ -931,6 +984,12 @@ async fn run_async(case: &HttpCase, dir: &Path, stats: &mut Stats) -> RunOut {
       };
     }
     let _ = needs_index;
+    if faulted {
+      // the storage failed underneath this request: any well-formed answer is
+      // acceptable (its shape was checked above); what it did is judged below
+      expect = None;
+      stats.inc("probe.answered_despite_storage_fault");
+    }
     if let Some((why, codes)) = &expect {
       if !codes.contains(&st.as_u16()) {
         let class = if why.contains("413") {
@@ -955,6 +1014,26 @@ async fn run_async(case: &HttpCase, dir: &Path, stats: &mut Stats) -> RunOut {
       }
     }
     // ---------------- C23: queue model
+    let own_ops: Vec<QOp> = match &req.kind {
+      ReqKind::Add { docs } | ReqKind::Bulk { docs, .. } => docs
+        .iter()
+        .filter_map(|d| match d {
+          DocSpec::Valid { id, ver } => {
+            let doc = make_doc(Profile::Basic, id, *ver);
+            Some(QOp::Add {
+              id: id.clone(),
+              v: Version {
+                ver: *ver,
+                stored: stored_projection(Profile::Basic, &doc),
+              },
+            })
+          }
+          _ => None,
+        })
+        .collect(),
+      ReqKind::Delete { ids } => ids.iter().map(|id| QOp::Del { id: id.clone() }).collect(),
+      _ => Vec::new(),
+    };
     match &req.kind {
       ReqKind::Init { bad: false } if st.is_success() => initialised = true,
       ReqKind::Add { docs } | ReqKind::Bulk { docs, .. } if st.is_success() => {
@@ -971,33 +1050,58 @@ async fn run_async(case: &HttpCase, dir: &Path, stats: &mut Stats) -> RunOut {
         } else if queued != n as u64 {
           out.violations.push(Violation::new(&["C23"], "queued-count-wrong", name, step, format!("{} acknowledged {} documents, sent {}", what, queued, n)));
         }
-        for d in docs {
-          if let DocSpec::Valid { id, ver } = d {
-            let doc = make_doc(Profile::Basic, id, *ver);
-            queue.push(QOp::Add {
-              id: id.clone(),
-              v: Version {
-                ver: *ver,
-                stored: stored_projection(Profile::Basic, &doc),
-              },
-            });
+        for a in alts.iter_mut() {
+          a.0.extend(own_ops.iter().cloned());
+        }
+      }
+      ReqKind::Delete { .. } if st.is_success() => {
+        for a in alts.iter_mut() {
+          a.0.extend(own_ops.iter().cloned());
+        }
+      }
+      ReqKind::Add { .. } | ReqKind::Bulk { .. } | ReqKind::Delete { .. } if faulted && initialised => {
+        // a write that failed on a storage error: un-acknowledged, any prefix of
+        // its own operations may have been queued - but nothing acknowledged
+        // earlier may be lost
+        let mut next = Vec::new();
+        for a in alts.iter() {
+          for j in 0..=own_ops.len() {
+            let mut q = a.0.clone();
+            q.extend(own_ops[..j].iter().cloned());
+            next.push((q, a.1.clone()));
           }
         }
+        alts = next;
+        dedup_alts(&mut alts);
       }
-      ReqKind::Delete { ids } if st.is_success() => {
-        for id in ids {
-          queue.push(QOp::Del { id: id.clone() });
+      ReqKind::Commit if !st.is_success() && faulted && initialised => {
+        // a commit that reported a failure: not applied, or (the failure came
+        // after publication) applied
+        let mut next = alts.clone();
+        for a in alts.iter() {
+          next.push((Vec::new(), fold(&a.1, &a.0)));
         }
+        alts = next;
+        dedup_alts(&mut alts);
       }
       ReqKind::Commit if st.is_success() => {
-        committed = fold(&committed, &queue);
-        queue.clear();
+        for a in alts.iter_mut() {
+          a.1 = fold(&a.1, &a.0);
+          a.0.clear();
+        }
+        dedup_alts(&mut alts);
         // observe through the API
         let _ = send(&router, make_request(&build(&ReqKind::Refresh), &Transport { content_length: true, ..Default::default() })).await;
         let sr = send(&router, make_request(&build(&ReqKind::Search { variant: 0 }), &Transport { content_length: true, ..Default::default() })).await;
         match sr {
           Ok(r) if r.status.is_success() => match contents_from_search(&r.body) {
-            Ok(c) if c == committed => stats.inc("checks.contents_after_commit"),
+            Ok(c) if alts.iter().any(|a| a.1 == c) => {
+              stats.inc("checks.contents_after_commit");
+              if alts.len() > 1 {
+                stats.inc("probe.alternatives_resolved_by_observation");
+              }
+              alts.retain(|a| a.1 == c);
+            }
             Ok(c) => {
               out.violations.push(Violation::new(
                 &["C23"],
@@ -1005,9 +1109,9 @@ async fn run_async(case: &HttpCase, dir: &Path, stats: &mut Stats) -> RunOut {
                 "commit",
                 step,
                 format!(
-                  "after /commit the index holds {:?}, but the acknowledged writes add up to {:?}; requests so far: {}",
+                  "after /commit the index holds {:?}, but the acknowledged writes add up to {}; requests so far: {}",
                   contents_short(&c),
-                  contents_short(&committed),
+                  alts.iter().map(|a| format!("{:?}", contents_short(&a.1))).collect::<Vec<_>>().join(" or "),
                   out.trace.join(" | ")
                 ),
               ));
@@ -1032,13 +1136,13 @@ async fn run_async(case: &HttpCase, dir: &Path, stats: &mut Stats) -> RunOut {
         let sr = send(&router, make_request(&build(&ReqKind::Stats), &Transport { content_length: true, ..Default::default() })).await;
         if let Ok(r) = sr {
           let docs = serde_json::from_slice::<Value>(&r.body).ok().and_then(|v| v.get("documents").and_then(|d| d.as_u64()));
-          if docs != Some(committed.len() as u64) {
+          if !alts.iter().any(|a| docs == Some(a.1.len() as u64)) {
             out.violations.push(Violation::new(
               &["C23"],
               "stats-mismatch",
               "stats",
               step,
-              format!("/stats.documents = {:?}, acknowledged and committed documents = {}", docs, committed.len()),
+              format!("/stats.documents = {:?}, acknowledged and committed documents = {}", docs, alts[0].1.len()),
             ));
           }
         }
@@ -1059,7 +1163,7 @@ async fn run_async(case: &HttpCase, dir: &Path, stats: &mut Stats) -> RunOut {
   }
   if let Some(spec) = &case.conc {
     if initialised && out.violations.is_empty() {
-      run_conc(case, spec, &router, &mut queue, &mut committed, stats, &mut out, &mut grams).await;
+      run_conc(case, spec, &router, &mut alts, stats, &mut out, &mut grams).await;
     }
   }
   for w in grams.windows(3) {
@@ -1073,7 +1177,7 @@ async fn run_async(case: &HttpCase, dir: &Path, stats: &mut Stats) -> RunOut {
 /// The concurrent block: see conc.rs. Continues the queue model of the
 /// sequential part.
 #[allow(clippy::too_many_arguments)]
-async fn run_conc(case: &HttpCase, spec: &ConcSpec, router: &axum::Router, queue: &mut Vec<QOp>, committed: &mut Contents, stats: &mut Stats, out: &mut RunOut, grams: &mut Vec<String>) {
+async fn run_conc(case: &HttpCase, spec: &ConcSpec, router: &axum::Router, alts: &mut Vec<Alt>, stats: &mut Stats, out: &mut RunOut, grams: &mut Vec<String>) {
   use conc::{HEvent, HOp};
   let n = spec.reqs.len();
   let sched = conc::Sched::new();
@@ -1302,12 +1406,12 @@ async fn run_conc(case: &HttpCase, spec: &ConcSpec, router: &axum::Router, queue
     }
   }
   let mut explored = 0u64;
-  let ok = conc::linearizable(queue, committed, &events, &mut explored);
+  let ok = alts.iter().any(|a| conc::linearizable(&a.0, &a.1, &events, &mut explored));
   stats.add("probe.linearization_states", explored);
+  let (queue, committed) = (&alts[0].0.clone(), &alts[0].1.clone());
   if ok {
     stats.inc("checks.concurrent_history_linearizable");
-    *committed = seen;
-    queue.clear();
+    *alts = vec![(Vec::new(), seen)];
   } else {
     let hist: Vec<String> = events.iter().map(|e| format!("[{}..{}] {}{}", e.invoke, if e.ret == u64::MAX { "-".to_string() } else { e.ret.to_string() }, e.label, match &e.op {
       HOp::Write(ops) | HOp::MaybeWrite(ops) => format!(" {{{}}}", ops.iter().map(|o| o.short()).collect::<Vec<_>>().join(",")),
@@ -1338,8 +1442,12 @@ fn run_case(case: &HttpCase, wroot: &Path, stats: &mut Stats) -> RunOut {
   let _ = std::fs::remove_dir_all(&dir);
   let _ = std::fs::create_dir_all(dir.parent().unwrap());
   let rt = tokio::runtime::Builder::new_current_thread().enable_all().start_paused(true).build().expect("runtime");
-  let res = catch_unwind(AssertUnwindSafe(|| rt.block_on(run_async(case, &dir, stats))));
+  let pfs = passfs::PassFs::new();
+  let mount_at = dir.parent().unwrap().to_path_buf();
+  searchlite_core::verif::fs::mount(&mount_at, std::sync::Arc::new(pfs.clone()));
+  let res = catch_unwind(AssertUnwindSafe(|| rt.block_on(run_async(case, &dir, &pfs, stats))));
   drop(rt);
+  searchlite_core::verif::fs::unmount(&mount_at);
   let _ = std::fs::remove_dir_all(dir.parent().unwrap());
   match res {
     Ok(r) => r,
